@@ -1281,9 +1281,11 @@ func (w *_mapAssembler) AssembleKey() datamodel.NodeAssembler {
 
 func (w *_mapAssembler) AssembleValue() datamodel.NodeAssembler {
 	kval := w.curKey.val
+	if w.valuesVal.MapIndex(kval).IsValid() {
+		return _errorAssembler{datamodel.ErrRepeatedMapKey{Key: &_node{cfg: w.cfg, schemaType: w.schemaType.KeyType(), val: kval}}}
+	}
 	val := reflect.New(w.valuesVal.Type().Elem()).Elem()
 	finish := func() error {
-		// TODO: check for duplicates in keysVal
 		w.keysVal.Set(reflect.Append(w.keysVal, kval))
 
 		w.valuesVal.SetMapIndex(kval, val)
